@@ -228,6 +228,9 @@ func (p *vkProxy) handle(c net.Conn) {
 							}
 						}
 					}
+					if os.Getenv("VERIF_DEBUG_PROXY") != "" {
+						fmt.Fprintf(os.Stderr, "PROXYDBG cut: seen=%d pass=%d cut=%d streaming=%v atBoundary=%v data=%x\n", seen, pass, cut, streaming, fp.atBoundary(), data[:pass])
+					}
 					c.Write(data[:pass])
 					return
 				}
